@@ -126,6 +126,26 @@ func init() {
 			o.Facts["store_calls:"+st.file] = calls
 			rows = append(rows, LeanStrList(calls))
 		}
+		// LockKeyshare / UnlockKeyshare of both key-share stores: every call they make (they must only take / release the mutex)
+		lockRows := []string{}
+		for _, st := range []struct{ file, recv string }{{"keyshare/ecdsa.go", "ECDSAKeyshareStore"}, {"keyshare/frost.go", "FrostKeyshareStore"}} {
+			sf := o.ParseFile(st.file)
+			for _, name := range []string{"LockKeyshare", "UnlockKeyshare"} {
+				calls := []string{}
+				if fd := FindFunc(sf, st.recv, name); fd != nil {
+					Walk(fd.Body, func(n ast.Node) bool {
+						if c, ok := n.(*ast.CallExpr); ok {
+							calls = append(calls, Src(c.Fun))
+						}
+						return true
+					})
+				}
+				o.Facts["lock_calls:"+st.recv+"."+name] = calls
+				lockRows = append(lockRows, LeanStrList(calls))
+			}
+		}
+		o.Lean.WriteString("/-- every call made by ECDSA Lock, ECDSA Unlock, FROST Lock, FROST Unlock -/\n")
+		o.Lean.WriteString("def lockCalls : List (List String) := [" + strings.Join(lockRows, ", ") + "]\n\n")
 		o.Lean.WriteString("/-- per Store function (ECDSA, FROST, topology): marshal / file-system calls in source order; `path-ok` = the\n    first argument of WriteFileAtomic is the store's own path -/\n")
 		o.Lean.WriteString("def storeCalls : List (List String) := [" + strings.Join(rows, ", ") + "]\n")
 	}
